@@ -197,12 +197,37 @@ func checkStateRead(r *Run, fn *ssa.Function, isExists bool) {
 			})
 		}
 		// Get: miss = err != nil
-		return condEdges(fn, func(cond ssa.Value, _ *ssa.If) int {
+		es := condEdges(fn, func(cond ssa.Value, _ *ssa.If) int {
 			return -nilCond(cond, func(v ssa.Value) bool {
 				src, idx := tupleSource(v)
 				return src == ssa.Value(c) && idx == 1
 			})
 		})
+		// ... or the (value, error) pair is handed to a same-package helper that reports the miss as a boolean result
+		if oh := overlayHelperOf(c); oh != nil {
+			es = append(es, condEdges(fn, func(cond ssa.Value, _ *ssa.If) int {
+				k := -1
+				pol := boolCond(cond, func(v ssa.Value) bool {
+					src, idx := tupleSource(v)
+					if src == ssa.Value(oh.call) && idx >= 0 && isBoolType(v.Type()) {
+						k = idx
+						return true
+					}
+					return false
+				})
+				if pol == 0 || k < 0 {
+					return 0
+				}
+				switch {
+				case oh.flagMeansMiss(k, true):
+					return pol
+				case oh.flagMeansMiss(k, false):
+					return -pol
+				}
+				return 0
+			})...)
+		}
+		return es
 	}
 	sessNil := condEdges(fn, func(cond ssa.Value, _ *ssa.If) int {
 		return nilCond(cond, func(v ssa.Value) bool { return isFieldLoad(v, "storage.State", "txSession") })
@@ -290,6 +315,12 @@ func checkStateRead(r *Run, fn *ssa.Function, isExists bool) {
 				// on a later layer's value (fallthrough to the tree) - not this overlay's value
 				if !derivesFrom(v, func(y ssa.Value) bool { src, _ := tupleSource(y); return src == ssa.Value(c) }) {
 					continue
+				}
+				// the value comes out of the helper, which hands out a found value only past its own not-tombstone test
+				if oh := overlayHelperOf(c); oh != nil {
+					if src, j := tupleSource(v); src == ssa.Value(oh.call) && j >= 0 && oh.translatesTombstone(p, j) {
+						continue
+					}
 				}
 			}
 			ok = false
@@ -649,6 +680,21 @@ func checkStateWrite(r *Run) {
 	}
 	r.Check(okS, "C09.write.set", cname, "value -> tree set",
 		"cs.Set(key, value) is reachable only on the not-tombstone edge", "a tombstone can be stored as a value in the tree, or the set does not use the iterated key/value", p.pos(cl.Pos()))
+	// every iterated entry is applied: no path through the callback avoids both the removal and the set
+	isApply := func(i ssa.Instruction) bool {
+		c, ok := i.(*ssa.Call)
+		return ok && (calleeName(c) == fnCSDel || calleeName(c) == fnCSSet)
+	}
+	skipped := ""
+	if first := cl.Blocks[0].Instrs[0]; !isApply(first) {
+		for i2 := range reachFromInstr(first, nil, isApply) {
+			if _, isRet := i2.(*ssa.Return); isRet {
+				skipped = p.ipos(i2)
+			}
+		}
+	}
+	r.Check(skipped == "", "C09.write.every", cname, "every overlay entry reaches the tree", "each path of the callback passes cs.Delete or cs.Set",
+		"the callback can return (at "+skipped+") without applying the entry: a write that was visible during the block is silently dropped at commit (the key keeps its previous committed value)", skipped)
 	// never stops early
 	never := true
 	for _, ret := range returnsOf(cl) {
@@ -999,4 +1045,109 @@ func checkVersions(r *Run) {
 				"guarded by every == 0 || release %% every != 0", "a version that is an epoch (release %% every == 0) can be deleted by the recent-window rotation", p.ipos(c))
 		}
 	}
+}
+
+// overlayHelper: the (value, error) results of an overlay lookup are passed straight to a same-package helper.
+type overlayHelper struct {
+	call           *ssa.Call // the helper call
+	h              *ssa.Function
+	valIdx, errIdx int // parameter positions of the looked-up value and of the lookup error
+}
+
+func overlayHelperOf(c *ssa.Call) *overlayHelper {
+	refs := c.Referrers()
+	if refs == nil {
+		return nil
+	}
+	var res *overlayHelper
+	for _, r := range *refs {
+		ex, ok := r.(*ssa.Extract)
+		if !ok || ex.Referrers() == nil {
+			continue
+		}
+		for _, u := range *ex.Referrers() {
+			hc, ok := u.(*ssa.Call)
+			if !ok {
+				continue
+			}
+			h := hc.Call.StaticCallee()
+			if h == nil || h.Blocks == nil || h.Pkg != c.Parent().Pkg {
+				continue
+			}
+			if res == nil || res.call != hc {
+				res = &overlayHelper{call: hc, h: h, valIdx: -1, errIdx: -1}
+			}
+			for i, a := range hc.Call.Args {
+				if a == ssa.Value(ex) {
+					if ex.Index == 1 {
+						res.errIdx = i
+					} else {
+						res.valIdx = i
+					}
+				}
+			}
+		}
+	}
+	if res == nil || res.errIdx < 0 || res.errIdx >= len(res.h.Params) {
+		return nil
+	}
+	return res
+}
+
+// flagMeansMiss: every return of the helper whose k-th result may be val lies behind the "lookup error != nil" edge.
+func (oh *overlayHelper) flagMeansMiss(k int, val bool) bool {
+	prm := oh.h.Params[oh.errIdx]
+	missE := condEdges(oh.h, func(cond ssa.Value, _ *ssa.If) int {
+		return -nilCond(cond, func(v ssa.Value) bool { return v == ssa.Value(prm) })
+	})
+	if len(missE) == 0 {
+		return false
+	}
+	live := reachWithout(oh.h, missE)
+	n := 0
+	for _, ret := range returnsOf(oh.h) {
+		if k >= len(ret.Results) {
+			return false
+		}
+		if cst, isC := boolConst(ret.Results[k]); isC && cst != val {
+			continue
+		}
+		n++
+		if live[ret.Block()] {
+			return false
+		}
+	}
+	return n > 0
+}
+
+// translatesTombstone: every return of the helper whose j-th result is not nil lies behind a not-tombstone test of the
+// looked-up value (or on the miss side).
+func (oh *overlayHelper) translatesTombstone(p *Program, j int) bool {
+	if oh.valIdx < 0 || oh.valIdx >= len(oh.h.Params) {
+		return false
+	}
+	vprm := oh.h.Params[oh.valIdx]
+	eprm := oh.h.Params[oh.errIdx]
+	pass := condEdges(oh.h, func(cond ssa.Value, _ *ssa.If) int {
+		if pol := -boolCond(cond, func(v ssa.Value) bool { x, ok := tombstoneTest(p, v, 0); return ok && x == ssa.Value(vprm) }); pol != 0 {
+			return pol
+		}
+		return -nilCond(cond, func(v ssa.Value) bool { return v == ssa.Value(eprm) })
+	})
+	if len(pass) == 0 {
+		return false
+	}
+	live := reachWithout(oh.h, pass)
+	for _, ret := range returnsOf(oh.h) {
+		if j >= len(ret.Results) {
+			return false
+		}
+		if isNilConst(ret.Results[j]) {
+			continue
+		}
+		if live[ret.Block()] {
+			return false
+		}
+	}
+	return true
 }
